@@ -101,6 +101,14 @@ def add_extras(spec, rng):
         if spec["kind"] == "shell":
             lf.update(argstr="--l", sep=rng.choice([",", ":", None]), position=None)
         spec["fields"].append(lf)
+    if spec["kind"] == "python":
+        # the wrapped function's own signature defaults for a suffix of the parameters - deliberately different from
+        # the field defaults given to python.arg, which take precedence
+        j = len(spec["fields"])
+        while j > 0 and spec["fields"][j - 1]["default"] != NODEF:
+            j -= 1
+        if j < len(spec["fields"]) and rng.random() < 0.6:
+            spec["sigdef"] = rng.randint(j, len(spec["fields"]) - 1)
     return spec
 
 
@@ -133,7 +141,11 @@ def _req_arg(alts):
 
 def body_source(spec):
     params = ", ".join(f["name"] for f in spec["fields"])
-    return (f"def {spec['name']}({params}):\n"
+    SIG = {"bool": "True", "str?": "'sig'", "int?": "7", "bool?": "True", "strlist": "('s', 'g')"}
+    sd = spec.get("sigdef")
+    sig = params if sd is None else ", ".join(
+        f["name"] + ("=" + SIG[f["type"]] if i >= sd else "") for i, f in enumerate(spec["fields"]))
+    return (f"def {spec['name']}({sig}):\n"
             "    from vp import evlog\n"
             f"    evlog.emit('start', node={spec['name']!r})\n"
             f"    return {spec['name']!r} + repr(({params},))\n")
